@@ -16,6 +16,8 @@ THEOREMS = [
     'AbacusVerif.Catalog.load_filter',
     'AbacusVerif.Catalog.load_filter_none',
     'AbacusVerif.Catalog.load_filter_nothing',
+    'AbacusVerif.Catalog.specRes_append',
+    'AbacusVerif.Catalog.specRes_masked',
     'AbacusVerif.Catalog.filter_sees_N',
     'AbacusVerif.Catalog.paths_spec',
     'AbacusVerif.Catalog.paths_mixed_first',
@@ -30,7 +32,8 @@ RULE = ('one evaluation = one experiment on the real CompaSOHaloCatalog: (glue) 
         'descriptions')
 TRUSTED = ['catgen.py arrays define the raw records; asdf / astropy Table I/O',
            'glue and mask are applied by the harness to observable outputs (ids, index columns, every subsample '
-           'column word for word), independently of the Lean definitions `glue` / `applyMask`',
+           'column word for word), independently of the Lean definitions `glue` / `applyMask`, which are ALSO driven '
+           '(driver requests glue / applymask) and compared with both the harness result and the real load',
            'int() of a file-name token is modelled for plain decimal tokens only']
 ASSUMPTIONS = ['filter functions are pure functions of the table they receive (and of the call count for the '
                'per-superslab dispatch)']
@@ -119,7 +122,9 @@ def checked_load(ctx, pool, case, label):
     if status != 'ok':
         return None, record
     masks = cx.masks_from_record(case, record)
-    m = cx.parse_model(ctx.driver.query([cx.model_line(truth, case, masks)])[0])
+    line = cx.model_line(truth, case, masks)
+    obs['_model_line'] = line
+    m = cx.parse_model(ctx.driver.query([line])[0])
     ctx.traces_validated += 1
     cx.compare_model(ctx, truth, case, obs, m)
     # which N does the model say the filter sees?  (`filterView` through the driver)
@@ -176,7 +181,22 @@ def run_glue(ctx, pool, case):
     if whole is None or any(p is None for p in parts):
         return False
     g = glue_obs(parts, ab)
-    return same_obs(ctx, 'a load of several files differs from the per-file loads glued together', 'glue', case, whole, g, ab)
+    good = same_obs(ctx, 'a load of several files differs from the per-file loads glued together', 'glue', case, whole, g, ab)
+    # the Lean `glue` (the definition `load_append` is about), folded over the model's per-file loads, against the
+    # real combined load and against the harness's own glue of the real per-file loads
+    ans = ctx.driver.query(['glue ' + ' | '.join(p['_model_line'] for p in parts)])[0]
+    mg = cx.parse_model(ans)
+    ctx.count('lean-glue-driven')
+    good &= cx.compare_model(ctx, truth, case, whole, mg, what='Lean glue vs real combined load: ', check_widx=False)
+    gobs = dict(whole)
+    gobs.update({k: v for k, v in g.items() if k != 'sub'})
+    gobs['sub'] = dict(whole['sub'])
+    gobs['sub'].update({k: v for k, v in g['sub'].items() if v is not None})
+    good &= cx.compare_model(ctx, truth, case, gobs, mg, what='Lean glue vs harness glue of real per-file loads: ', check_widx=False)
+    if 'err' not in mg and mg['nper'] != [len(p['id']) for p in parts]:
+        ctx.disagree('Lean glue: per-file counts', case, mg['nper'], [len(p['id']) for p in parts])
+        good = False
+    return good
 
 
 def exp_mask(ctx, rng, pool, recipe):
@@ -212,7 +232,24 @@ def run_mask(ctx, pool, case):
         return False
     ctx.count('mask-keeps:%s' % ('nothing' if not any(keep) else 'all' if all(keep) else 'some'))
     g = mask_obs(unf, keep, ab)
-    return same_obs(ctx, 'a filtered load differs from the masked unfiltered load', 'mask', case, filtered, g, ab)
+    good = same_obs(ctx, 'a filtered load differs from the masked unfiltered load', 'mask', case, filtered, g, ab)
+    # the Lean `applyMask` (the definition `load_filter` is about) of the model's unfiltered load, against the real
+    # filtered load and against the harness's own masking of the real unfiltered load
+    bits = ''.join('1' if b else '0' for b in keep) or '-'
+    ans = ctx.driver.query(['applymask %s %s' % (bits, unf['_model_line'])])[0]
+    mm = cx.parse_model(ans)
+    ctx.count('lean-applyMask-driven')
+    good &= cx.compare_model(ctx, truth, case, filtered, mm, what='Lean applyMask vs real filtered load: ', check_widx=False)
+    gobs = dict(filtered)
+    gobs.update({k: v for k, v in g.items() if k != 'sub'})
+    gobs['sub'] = dict(filtered['sub'])
+    gobs['sub'].update(g['sub'])
+    good &= cx.compare_model(ctx, truth, case, gobs, mm, what='Lean applyMask vs harness mask of the real unfiltered load: ', check_widx=False)
+    exp_nper = [sum(rec['mask']) for rec in record]
+    if 'err' not in mm and mm['nper'] != exp_nper:
+        ctx.disagree('Lean applyMask: per-file kept counts', case, mm['nper'], exp_nper)
+        good = False
+    return good
 
 
 # ------------------------------------------------------------------------------------------------ file lists
